@@ -99,7 +99,9 @@ class SingularityDetection:
         """
         for val in sympy.flatten(A):
             for expr, subs_expr in cond.items():
-                if sympy.simplify(val.subs(expr, subs_expr)) in [sympy.nan, sympy.zoo, sympy.oo]:
+                val_subs = sympy.simplify(val.subs(expr, subs_expr))
+                if val_subs in [sympy.nan, sympy.zoo, sympy.oo] or val_subs.has(sympy.nan, sympy.zoo, sympy.oo, -sympy.oo):
+                    # the entry is undefined also when the infinity is only part of it (e.g. ``zoo*w`` for ``w/(a - b)`` under ``a = b``)
                     return False
 
         return True
